@@ -515,6 +515,8 @@ func (m *Mux) serveHTTP(w http.ResponseWriter, r *http.Request) error {
 	if herr != nil {
 		if !stream.sentHeader {
 			w.Header().Set("Content-Encoding", "identity") // try to avoid gzip
+			// Header metadata set before the error still belongs to the response.
+			setOutgoingHeader(w.Header(), stream.header)
 		}
 		m.encError(w, r, herr)
 	}
